@@ -65,7 +65,8 @@ H("C11", "cache_raw", "c11_prefix_160", tier="thorough", what="as above, <=160 b
 PROPS["C01"] = dict(
     claim=("both iterate_with_lines kernels (mapper and cache) yield exactly one frame per applying entry, in order, "
            "with the class, method, ProGuard original-line rule and sourceFile/synthetic/foreign-class file rule of the reference model"),
-    outside="more than 3 entries per (class, method); names other than the fixed shapes; the builders' record->entry encoding (see builder harnesses); text noise / line endings (composition with C06)",
+    outside=("more than 3 entries per (class, method) in the kernels; names other than the fixed shapes; the mapper builder beyond streams with one symbolic method record (see p_mapper_*); "
+             "the cache *writer's* record->entry encoding (write pipeline not executable under CBMC); text noise / line endings (composition with C06)"),
     assumptions=["builder representation invariant: endline==0 => startline==0, original_startline==0, original_endline==None; endline>0 => startline>0",
                  "mapping line numbers < 2^32-1 (property domain); frame line any usize"],
 )
@@ -87,6 +88,14 @@ H("C01", "cache_mod", "c01_cache_step_2_a", what="cache inductive step, 2 entrie
 H("C01", "cache_mod", "c01_cache_step_2_b", what="cache inductive step, 2 entries, other shapes", vars="as above", bound="K=2", **_kcs)
 H("C01", "cache_mod", "c01_cache_step_3", what="cache inductive step, 3 entries", vars="numbers of 3 entries, frame line", bound="K=3", **_kcs)
 
+_pb = dict(functions=["ProguardMapper::create_proguard_mapper", "ProguardMapper::remap_frame", "ProguardMapper::remap_method", "ProguardMapper::remap_class", "mapper::iterate_with_lines", "ProguardRecordIter (position)"],
+           stubs=STD_STUBS + ["record injection: mapping.iter().filter_map(Result::ok).peekable() -> InjectedOk/InjectedPeekable over the harness's record stream (kani/support/inject.rs)",
+                             "mapper::extract_class_name -> exact byte-loop model", "ProguardRecord: repr(C,u8) layout in the verification build"], mode="functional", timeout=1200,
+           vars="presence and all four numbers of the method's line mapping, frame line (usize), frame file presence")
+H("C01", "mapper", "p_mapper_1m", what="real builder on [class, method(symbolic line mapping)]: line query == stream-level spec (record->entry encoding, range filter, line rule)", bound="2 records", **_pb)
+H("C01", "mapper", "p_mapper_file_1m", what="real builder on [class, sourceFile header, method]: the file rule end to end", bound="3 records", **_pb)
+H("C01", "mapper", "p_mapper_dupclass", tier="thorough", what="real builder on [class a, method, class a again, method]: the last class block with a name wins, nothing leaks from the first", bound="4 records (1 symbolic)", **_pb)
+
 # --------------------------------------------------------------------------- C02
 PROPS["C02"] = dict(
     claim=("kernel differential: for one abstract entry of the representable domain, encoded for the mapper (Option) and for the cache "
@@ -103,14 +112,20 @@ H("C02", "cache_mod", "c02_kernel_diff_params_foreign", what="by-parameters kern
 
 # --------------------------------------------------------------------------- C03
 PROPS["C03"] = dict(
-    claim="iterate_without_lines (mapper, cache) yields one frame per by-params entry in order with class rule, line 0, no file",
-    outside="which entries the builders put into the by-params index (inline filter, de-duplication, per-class reset, offsets): see builder harnesses",
+    claim=("iterate_without_lines (mapper, cache) yields one frame per by-params entry in order with class rule, line 0, no file; and the real mapper builder with parameter index, on record streams with "
+           "one method per class block, answers a parameter-based query exactly as the stream-level spec (argument string match, original class, per-class reset of the de-duplication set)"),
+    outside=("two or more method records inside one class block, i.e. the inline filter and the duplicate filter proper (21-28 GB in CBMC's propositional reduction, measured, DESIGN.md section 2); "
+             "the cache writer's by-params section (write pipeline not executable under CBMC)"),
     assumptions=[],
 )
 H("C03", "cache_mod", "c03_cache_without_lines_kernel", what="cache iterate_without_lines == spec, 2 entries", vars="entry numbers", bound="K=2",
   functions=["cache::iterate_without_lines", "ProguardCache::read_string"], stubs=[])
 H("C03", "mapper", "c03_mapper_without_lines_kernel", what="mapper iterate_without_lines == spec, 2 entries", vars="entry fields", bound="K=2",
   functions=["mapper::iterate_without_lines"], stubs=[])
+
+H("C03", "mapper", "p_mapper_params_basic", what="real builder with parameter index on [class, method(args I, symbolic line mapping)]: by-params query == stream-level spec; other argument strings match nothing", bound="2 records", **_pb)
+H("C03", "mapper", "p_mapper_params_reset", what="real builder on [class a, method f(I), class b, method f(I)]: the de-duplication set does not leak from one class block into the next", bound="4 records (1 symbolic)", **_pb)
+H("C02", "mapper", "p_mapper_1m_with_index", what="line-based answers of the mapper are the same when the parameter index was requested", bound="2 records", **_pb)
 
 # --------------------------------------------------------------------------- C04
 PROPS["C04"] = dict(
@@ -121,12 +136,12 @@ PROPS["C04"] = dict(
 _c04m = dict(functions=["ProguardMapper::remap_method", "ProguardMapper::remap_class", "ProguardMapper::remap_frame", "mapper::iterate_with_lines"],
              stubs=STD_STUBS + ["mapper::extract_class_name -> constant (no entry has a file)"], bound="<=3 entries, 1 class, 1-byte names",
              vars="all line numbers of every entry, frame line")
-for _n in ["f", "ff", "fg", "fff", "ffg", "gff"]:
+for _n in ["f", "ff", "fg", "fff", "ffg", "gff", "fgf"]:
     H("C04", "mapper", "c04_mapper_" + _n, what="mapper: remap_method iff all entries agree (original names " + _n + "), frames agree, exact class/method lookup, unknown names yield nothing", **_c04m)
 
 _c04c = dict(functions=["ProguardCache::remap_method", "ProguardCache::get_class", "ProguardCache::get_class_members", "ProguardCache::find_range_by_binary_search", "ProguardCache::remap_frame", "cache::iterate_with_lines"],
              stubs=["cache::extract_class_name -> constant (no entry has a file)"], bound="<=3 entries + 1 neighbour method, 1 class", vars="all line numbers (writer invariant), frame line")
-for _n in ["f", "ff", "fg", "fff", "ffg", "gff"]:
+for _n in ["f", "ff", "fg", "fff", "ffg", "gff", "fgf"]:
     H("C04", "cache_mod", "c04_cache_" + _n, what="cache: remap_method iff all entries agree (original names " + _n + "), frames agree and do not leak into the neighbour method", **_c04c)
 for _q in (1, 2):
     H("C04", "cache_mod", "c04_cache_class_lookup_2classes_q%d" % _q, what="cache class lookup exact for every %d-byte query, classes a, a$" % _q, vars="%d query bytes" % _q,
@@ -134,6 +149,7 @@ for _q in (1, 2):
 for _q, _t in [(1, "thorough"), (2, "thorough"), (3, "thorough")]:
     H("C04", "cache_mod", "c04_cache_class_lookup_q%d" % _q, tier=_t, timeout=900, what="cache class lookup (binary search) is exact for every %d-byte query over {a,b,$,.,A,0,m} against classes a, a$, a., b" % _q,
       vars="%d query bytes" % _q, bound="4 classes, %d-byte queries" % _q, functions=["ProguardCache::get_class", "ProguardCache::remap_class", "ProguardCache::remap_throwable"], stubs=[])
+H("C04", "mapper", "p_mapper_dupclass", what="(shared with C01) real builder on [class a, method, class a again, method]: class and method lookup answer from the last class block with that name", bound="4 records (1 symbolic)", **_pb)
 H("C04", "cache_mod", "c04_cache_find_range", what="find_range_by_binary_search returns exactly the maximal Equal run for every sorted comparison table", vars="slice length <=5, run bounds lo<=hi", bound="<=5 members",
   functions=["ProguardCache::find_range_by_binary_search"], stubs=[])
 
@@ -176,6 +192,12 @@ H("C13", "stacktrace", "c13_classifiers_5", tier="thorough", timeout=1800, what=
 H("C13", "stacktrace", "c13_frame_template_6", tier="thorough", timeout=2400, what="`at ` + 6 symbolic bytes + `)`: parse_frame never panics; a returned frame is exactly the pieces of the line",
   vars="6 bytes", bound="10-byte lines of that shape", functions=["stacktrace::parse_frame"], stubs=["core::slice::memchr::{memchr,memrchr} -> byte loops"])
 
+H("C13", "java", "c13_tokenizer_utf8", timeout=1200, what="descriptor tokenizer never panics on `(L`+3 bytes+`V` incl. a 2-byte character (valid UTF-8 only)", vars="3 bytes", bound="6-byte strings of that shape",
+  functions=["java::parse_obfuscated_bytecode_signature"], stubs=["core::slice::memchr::{memchr,memrchr} -> byte loops"])
+for _n in ["plain", "foreign_synth"]:
+    H("C13", "cache_mod", "c12_kernel_" + _n, timeout=900, what="(shared with C12) cache frame kernel with arbitrary numbers never panics/overflows: what a written cache holds after the writer's u32 narrowing, shape " + _n,
+      vars="all numbers (u32), frame line (usize)", bound="1 entry", functions=["cache::iterate_with_lines"], stubs=["watto::StringTable::read -> strtab_read_model"])
+
 # --------------------------------------------------------------------------- C06
 PROPS["C06"] = dict(
     claim=("one step of the real record parser from any non-empty slice never panics, returns a strict suffix (=> termination and <=1 item per byte for inputs of "
@@ -189,8 +211,9 @@ _c06 = dict(functions=["mapping::parse_proguard_record", "parse_proguard_header"
             stubs=["core::str::from_utf8 -> from_utf8_model", "char::is_numeric -> is_numeric_model", "memchr/memrchr -> byte loops"])
 H("C06", "mapping", "c06_step_any_3", timeout=900, what="step (a)(b)(c), every slice of 1..3 arbitrary bytes", vars="3 bytes (all 256 values), length", bound="<=3 bytes", **_c06)
 H("C06", "mapping", "c06_step_header_4", timeout=900, what="step, `#` + up to 4 arbitrary bytes", vars="4 bytes, length", bound="<=5 bytes", **_c06)
-H("C06", "mapping", "c06_step_sourcefile_3", timeout=900, what="step, sourceFile JSON prefix + up to 3 arbitrary bytes (unterminated value, terminators inside)", vars="3 bytes, length", bound="33+3 bytes", **_c06)
-H("C06", "mapping", "c06_locality_any_4", timeout=900, what="locality (d), every 4-byte slice", vars="4 bytes", bound="4 bytes", **_c06)
+H("C06", "mapping", "c06_step_sourcefile_3", tier="thorough", timeout=3000, what="step, sourceFile JSON prefix + up to 3 arbitrary bytes (unterminated value, terminators inside)", vars="3 bytes, length", bound="33+3 bytes", **_c06)
+H("C06", "mapping", "c06_locality_any_3", tier="thorough", timeout=3000, what="locality (d), every 3-byte slice", vars="3 bytes", bound="3 bytes", **_c06)
+H("C06", "mapping", "c06_locality_any_4", tier="thorough", timeout=3000, what="locality (d), every 4-byte slice", vars="4 bytes", bound="4 bytes", **_c06)
 H("C06", "mapping", "c06_step_any_4", tier="thorough", timeout=2400, what="step, 1..4 arbitrary bytes", vars="4 bytes, length", bound="<=4 bytes", **_c06)
 H("C06", "mapping", "c06_step_any_5", tier="thorough", timeout=3000, what="step, 1..5 arbitrary bytes", vars="5 bytes, length", bound="<=5 bytes", **_c06)
 H("C06", "mapping", "c06_step_member_4", tier="thorough", timeout=2400, what="step, four-space indent + up to 4 arbitrary bytes", vars="4 bytes, length", bound="<=8 bytes", **_c06)
@@ -232,6 +255,7 @@ _c16 = dict(functions=["java::parse_obfuscated_bytecode_signature", "java::java_
 H("C16", "java", "c16_tokenizer_len3", timeout=900, what="all `(`+2 characters", vars="2 characters", bound="3-character strings", **_c16)
 H("C16", "java", "c16_tokenizer_len4", timeout=900, what="all `(`+3 characters", vars="3 characters", bound="4-character strings", **_c16)
 H("C16", "java", "c16_tokenizer_len5", timeout=1200, what="all `(`+4 characters", vars="4 characters", bound="5-character strings", **_c16)
+H("C16", "java", "c16_tokenizer_utf8_names", timeout=1500, what="`(L`+2 bytes+`;`+1 byte+`)V` incl. a 2-byte character in the class name: count and return slice", vars="3 bytes", bound="8-byte strings of that shape", **_c16)
 H("C16", "java", "c16_tokenizer_len6", tier="thorough", timeout=3600, what="all `(`+5 characters", vars="5 characters", bound="6-character strings", **_c16)
 
 # --------------------------------------------------------------------------- C19
@@ -247,6 +271,23 @@ H("C19", "mapping", "c19_folds_5", timeout=900, what="folds == reference, 5 item
 H("C19", "mapping", "c19_folds_8", tier="thorough", timeout=2400, what="folds == reference, 8 items", vars="kinds/keys/values of 8 items", bound="8 items", **_c19)
 H("C19", "mapping", "c19_is_valid_window", timeout=1200, what="is_valid == 50-item window rule, 52 items of symbolic kind", vars="52 kinds", bound="52 items",
   functions=["ProguardMapping::is_valid", "ProguardRecordIter::next"], stubs=["mapping::parse_proguard_record -> inject::parse_stub"], mode="full")
+
+# --------------------------------------------------------------------------- C05
+PROPS["C05"] = dict(
+    claim=("each grammar template (header k:v / k / sourceFile JSON, class, field, method x {no range, s:e:} x {no class, cls.} x {-, :os, :os:oe} x terminators none/LF/CRLF/LFLF) parses, through the real "
+           "record parser and through try_parse, to a record whose components are exactly the hole slices (pointer and length), with the line mapping present iff both obfuscated numbers are > 0 and the "
+           "original numbers present iff printed; the documented malformed templates are reported as errors carrying exactly the offending line; parse_usize alone on up to 20 digits"),
+    outside="identifiers longer than 3 symbolic characters, numbers longer than 3 digits inside a full line (2^40 only in the parse_usize harness), templates not listed, non-ASCII identifier characters",
+    assumptions=["std models (each proved equal to the real function by an s_* harness): core::str::from_utf8, char::is_numeric, memchr/memrchr"],
+)
+_c05 = dict(functions=["mapping::parse_proguard_record", "ProguardRecord::try_parse", "parse_proguard_header", "parse_proguard_field_or_method", "parse_proguard_class", "parse_usize", "parse_prefix", "parse_until*"],
+            stubs=["core::str::from_utf8 -> from_utf8_model", "char::is_numeric -> is_numeric_model", "memchr/memrchr -> byte loops"], vars="identifier characters and digits of every hole", bound="one line")
+for _n, _t in [("class", "quick"), ("header_k", "quick"), ("class_crlf", "thorough"), ("header_kv", "thorough"), ("header_sourcefile", "thorough"), ("field", "thorough"), ("field_lf", "thorough"),
+               ("method_plain", "thorough"), ("method_noargs_class", "thorough"), ("method_range", "thorough"), ("method_range_os", "thorough"), ("method_range_os_oe", "thorough"), ("method_norange_os", "thorough"),
+               ("bad_unspaced_arrow", "quick"), ("bad_class_no_colon", "thorough"), ("bad_indent2", "thorough"), ("bad_start_without_end", "thorough"), ("bad_no_type", "thorough"), ("bad_no_arrow", "thorough")]:
+    H("C05", "mapping", "c05_" + _n, tier=_t, timeout=3000, what="template " + _n, **_c05)
+H("C05", "mapping", "c05_parse_usize_20", tier="thorough", timeout=3000, what="parse_usize on 1..20 symbolic digits: exact value or error on overflow", vars="20 digits, count", bound="<=20 digits",
+  functions=["mapping::parse_usize"], stubs=["core::str::from_utf8 -> from_utf8_model", "char::is_numeric -> is_numeric_model"])
 
 # --------------------------------------------------------------------------- C10
 PROPS["C10"] = dict(
@@ -268,11 +309,14 @@ H("C10", "cache_mod", "c10_lookup_diff", what="member-range slicing and range se
 
 # --------------------------------------------------------------------------- C15
 PROPS["C15"] = dict(
-    claim=("the writer's padding step (write_padding + std write_all) under every sink schedule: success => exactly the padding bytes were accepted (zeros up to the next multiple of 8); "
+    claim=("ProguardCache::write on the empty mapping, and the writer's padding step (write_padding + std write_all) for every section length, under every sink schedule: success => exactly the padding bytes were accepted (zeros up to the next multiple of 8); "
            "a non-retryable sink error => failure with only a prefix delivered; Interrupted is retried"),
-    outside="the payload writes of ProguardCache::write (plain write_all calls chained with `?`): see the writer pipeline harnesses; more than 12 sink calls",
+    outside="ProguardCache::write on non-empty mappings (not executable under CBMC, DESIGN.md section 2b): its payload writes are plain write_all calls chained with `?`; more than 12 sink calls",
     assumptions=["sink obeys the io::Write contract: accepts 1..=len bytes per successful call"],
 )
+H("C15", "cache_raw", "c15_write_empty_mapping", timeout=1500, what="ProguardCache::write on the empty record stream with a symbolic sink schedule vs the bytes it delivers to a Vec",
+  vars="12 per-call limits, failing call index, interrupted call index", bound="empty mapping (24-byte output), <=12 sink calls",
+  functions=["ProguardCache::write", "cache::raw::write_padding", "std::io::Write::write_all"], stubs=["record injection (empty stream)"] + STD_STUBS)
 H("C15", "cache_raw", "c15_padding_unit", timeout=900, what="write_padding with symbolic section length and symbolic sink schedule (per-call acceptance, failing call, interrupted call)",
   vars="section length (usize), 12 per-call limits, failing call index, interrupted call index", bound="<=12 sink calls",
   functions=["cache::raw::write_padding", "std::io::Write::write_all"], stubs=[])
@@ -283,6 +327,8 @@ PROPS["C18"] = dict(
     outside="SHA-1 / RFC 4122 arithmetic inside the uuid crate (uninterpreted here; its contract is trusted); sources longer than 16 bytes (the function is length-oblivious); cross-process stability",
     assumptions=["uuid::Uuid::new_v5 -> uninterpreted recorder returning a fresh arbitrary value per call"],
 )
+H("C18", "mapping", "c18_uuid_wiring_3", features="uuid", timeout=600, what="uuid() wiring for every source of <=3 symbolic bytes", vars="3 bytes, length", bound="<=3 bytes",
+  functions=["ProguardMapping::uuid", "lazy_static NAMESPACE"], stubs=["uuid::Uuid::new_v5 -> recorder"], name_path="mapping::verif_harness::c18::c18_uuid_wiring_3")
 H("C18", "mapping", "c18_uuid_wiring", features="uuid", timeout=600, what="uuid() wiring for every source of <=16 symbolic bytes", vars="16 bytes, length", bound="<=16 bytes",
   functions=["ProguardMapping::uuid", "lazy_static NAMESPACE"], stubs=["uuid::Uuid::new_v5 -> recorder"], name_path="mapping::verif_harness::c18::c18_uuid_wiring")
 
@@ -293,6 +339,8 @@ NOTES = ("All checks are driven by /verif/check; see DESIGN.md. Exit 2 = inconcl
 NOT_APPLICABLE = {
     "C07": "text-trace remapping runs str::lines/trim/split_once/parse/fmt over text whose shape is the quantified variable; measured cost of those std routines under CBMC (10-40 s per call on 4 symbolic bytes) puts even one frame line (11+ bytes) out of reach, and a template-only harness would decide nothing about arbitrary line shapes (DESIGN.md section 5, C07)",
     "C14": "quantifies over processes, hash seeds, threads and allocation addresses; Kani is single-threaded, CBMC's address model is deterministic and std HashMap seeding is not executable under it (DESIGN.md section 5, C14)",
+    "C09": "the property is about the bytes ProguardCache::write produces; under Kani/CBMC the writer runs symbolically only on a 2-record stream and parsing its output back does not finish in 15 min (every string length read from the written Vec is symbolic for symbolic execution), larger streams run out of memory (21-28 GB) - measured, DESIGN.md section 2b; the by-params offset defect it would have shown was confirmed natively and fixed",
+    "C17": "the print direction (Display -> fmt::write -> growing String, usize formatting) over symbolic names is the construct measured as intractable for CBMC here (DESIGN.md section 2b); the parse direction of single lines is decided inside C13's classifier harnesses; whole-trace round trips additionally need str::lines and Vec growth over symbolic text",
     "C20": "Send/Sync are decided by rustc's trait solver, not by a SAT/SMT query, and Kani does not model threads (DESIGN.md section 5, C20)",
 }
 for _p in [f"C{i:02d}" for i in range(1, 21)]:
